@@ -47,8 +47,15 @@ def build(case):
     header = {"id": gid(), "location": LOC, "cells": [{"location": LOC, "value": h} for h in hs]}
     row = {"id": gid(), "location": LOC, "cells": [{"location": LOC, "value": v} for v in vs]}
     ex = {"id": gid(), "tags": [], "location": LOC, "keyword": "Examples", "name": t0, "description": "", "tableHeader": header, "tableBody": [row]}
+    exs = [ex]
+    if case.get("second_block"):
+        # a second examples block: other header names (reversed order / renamed), the very same row values
+        hs2 = case["second_block"]
+        header2 = {"id": gid(), "location": LOC, "cells": [{"location": LOC, "value": h} for h in hs2]}
+        row2 = {"id": gid(), "location": LOC, "cells": [{"location": LOC, "value": v} for v in vs]}
+        exs.append({"id": gid(), "tags": [], "location": LOC, "keyword": "Examples", "name": "", "description": "", "tableHeader": header2, "tableBody": [row2]})
     sc = {"scenario": {"id": gid(), "tags": [], "location": LOC, "keyword": "Scenario Outline", "name": " / ".join(ts), "description": "",
-                       "steps": steps, "examples": [ex]}}
+                       "steps": steps, "examples": exs}}
     doc = {"feature": {"tags": [], "location": LOC, "language": "en", "keyword": "Feature", "name": t0, "description": "",
                        "children": [bg, sc]}, "comments": [], "uri": "u"}
     return doc, n[0], len(bg_steps)
@@ -60,8 +67,16 @@ def check_interp(case, stats):
     nontrivial = any(set(x) & META for x in hs + vs) or len(hs) >= 2
     stats.case(case, nontrivial, sample=case, labels=["cols=%d" % len(hs)])
     pk = pc.real_compile(doc, nid)
-    if len(pk) != 1:
-        raise Violation(case, "expected exactly one pickle for the single example row, got %d" % len(pk))
+    if len(pk) != (2 if case.get("second_block") else 1):
+        raise Violation(case, "expected exactly one pickle per example row, got %d" % len(pk))
+    if case.get("second_block"):
+        hs2 = case["second_block"]
+        p2 = pk[1]
+        want2 = [literal(t, hs2, vs) for t in ts]
+        got2 = [s_["text"] for s_ in p2["steps"][nbg:nbg + len(ts)]]
+        if got2 != want2 or p2["name"] != literal(" / ".join(ts), hs2, vs):
+            raise Violation(case, "second examples block (headers %r, same values %r): step texts %r name %r, literal substitution gives %r / %r" % (
+                hs2, vs, got2, p2["name"], want2, literal(" / ".join(ts), hs2, vs)))
     p = pk[0]
     L = lambda t: literal(t, hs, vs)
     exp_name = L(" / ".join(ts))
@@ -133,7 +148,7 @@ def unit_two_columns(a):
                         n += 1
                         if n % a["nshards"] != a["shard"]:
                             continue
-                        yield {"sub": "interp", "headers": [h1, h2], "values": [v1, v2],
+                        yield {"sub": "interp", "headers": [h1, h2], "values": [v1, v2], "second_block": [h2, h1] if n % 3 == 0 else ([h1 + "q", h2] if n % 3 == 1 else None),
                                "templates": ["<%s>" % h1, "<%s> <%s>" % (h2, h1), "<<%s>>" % h2, "x", "<%s><%s" % (h1, h2)]}
     sweep(stats, gen(), check_interp)
     return stats
@@ -160,7 +175,10 @@ def st_interp(draw):
     for _ in range(draw(st.integers(1, 4))):
         parts = draw(st.lists(st.one_of(st_word, st.sampled_from(hs).map(lambda h: "<" + h + ">"), st.sampled_from(["<x>", "<", ">", "<>"])), max_size=5))
         ts.append("".join(parts))
-    return {"sub": "interp", "headers": hs, "values": vs, "templates": ts}
+    second = None
+    if draw(st.integers(0, 2)) == 0:
+        second = list(reversed(hs)) if draw(st.booleans()) else [h + "z" for h in hs]
+    return {"sub": "interp", "headers": hs, "values": vs, "templates": ts, "second_block": second}
 
 
 def unit_hyp(a):
